@@ -298,6 +298,40 @@ def run(ctx):
                       f"cell actions at lines {sorted(set(cell_actions))[:6]}", "a vertex is deleted without any update of the cells that contain it")
     ctx.count("PAIR", "vertex deletion sites", n_del, 8)
 
+    # the Surface Evolver parser drops vertices that belong to no cell: every mesh edge such a vertex lists goes with it (an edge
+    # kept because its *other* end is still in use would end at a vertex that no longer exists)
+    sel = repo.func("forsys.surface_evolver.SurfaceEvolver.create_lattice")
+    ctx.touch(sel)
+    ssel = sym.summarize(repo, sel.qualname)
+    vdel = [e for e in ssel.events if e.kind == "del" and len(e.loops()) == 1 and e.key == ("bv", e.loops()[0][1])
+            and any(x[0] == "attr" and x[2] == "ownCells" for x in T.subterms(e.loops()[0][2]))]
+    if not vdel:
+        raise AnalysisError("SurfaceEvolver.create_lattice: removal of cell-less vertices not found - re-bind the anchor")
+    ename = None
+
+    def _peel(t):
+        while t[0] == "call" and t[1] in (("m", "copy"), "list", "tuple", "sorted", "set") and len(t[2]) == 1:
+            t = t[2][0]
+        return t
+    for dv in vdel:
+        L = dv.loops()[0]
+        okd = False
+        for e in ssel.events:
+            lp = e.loops()
+            if e.kind == "del" and e.attr != dv.attr and len(lp) == 2:
+                br = _back_ref(_peel(lp[1][2]))
+                if br is None or br[0] != "ownEdges" or br[1][0] != "idx" or e.key != ("bv", lp[1][1]):
+                    continue
+                own = [c for c in e.conds() if not (c[0] == "in" and c[1] == e.key)]
+                # the same ids: the same list walked twice, or the list's comprehension fused into this loop (its filter is then a guard)
+                same = not own and T.alpha(lp[0][2]) == T.alpha(L[2]) and br[1][2] == ("bv", lp[0][1])
+                fused = len(own) == 1 and T.alpha(("map", br[1][2], ("bv", lp[0][1]), lp[0][2], own[0])) == T.alpha(L[2])
+                if same or fused:
+                    okd = True
+        ctx.check(okd, "PAIR", f"{sel.qualname} / PAIR / every mesh edge listed by a removed cell-less vertex is removed with it", ctx.where(sel, dv.node),
+                  "for i in cell-less ids: for e in vertices[i].ownEdges.copy(): del edges[e]; del vertices[i]",
+                  "a cell-less vertex is removed while some mesh edge it lists stays in the edge dictionary: that edge ends at a vertex that is no longer in the mesh")
+
     # join_two_vertices: the edge between the two merged vertices is deleted before the other edges are re-pointed
     jv = repo.func("forsys.virtual_edges.join_two_vertices")
     ctx.touch(jv)
@@ -545,6 +579,8 @@ PINNED = [
     ("Cell.replace_vertex substitutes at the new vertex's position", _C, "self.vertices[vertices_ids.index(vold.id)] = vnew", "self.vertices[vertices_ids.index(vnew.id) if vnew.id in vertices_ids else 0] = vnew"),
     ("add_cell appends duplicates", _X, "        if cid in self.ownCells:\n            return False\n        else:\n            self.ownCells.append(cid)\n            return True", "        self.ownCells.append(cid)\n        return True"),
     ("foreign writer of ownEdges", _V, "    # destroy edge\n    del edges[common_edge]", "    # destroy edge\n    v0.ownEdges.remove(common_edge)\n    del edges[common_edge]"),
+    ("foreign writer of ownEdges through a helper that mutates its parameter", _V, "    # destroy edge\n    del edges[common_edge]",
+     "    # destroy edge\n    def _drop(owned, eid):\n        owned.remove(eid)\n    _drop(v0.ownEdges, common_edge)\n    del edges[common_edge]"),
     ("F11 reintroduced: triangle clean-up iterates the live list", _S, "its_edges = self.vertices[vertex_id_to_delete].ownEdges.copy()", "its_edges = self.vertices[vertex_id_to_delete].ownEdges"),
     ("SurfaceEvolver orphan removal iterates the live list", _SE, "for e in vertices[i].ownEdges.copy():", "for e in vertices[i].ownEdges:"),
     ("remove_cell iterates the live list", _F, "for ii in vertex.ownEdges.copy():", "for ii in vertex.ownEdges:"),
